@@ -290,7 +290,8 @@ def c12(pid, tier, seed, selftest=False):
                 "exit status, 'Error:' line, output bytes (vs the original plaintext / specification-directed opening of produced "
                 "files) and the 'File from' / 'Unknown key' line validated against CliContract!Expected, which depends only on "
                 "the abstract request; non-trivial = any wiring other than file/-o/-k/short/full-name, or a failure cause")
-    rep.assumptions = ["stdin is a pipe and passwords come from the environment (--env-pass); interactive prompts are outside the property"]
+    rep.assumptions = ["configurations use a piped stdin and --env-pass; the interactive paths are exercised separately on a pseudo-terminal "
+                       "(Prompt.tla): typed scripts of right / wrong / mismatching passwords ended by Ctrl-C"]
     build_harness()
     tpl, tres = st.get_templates(pid)
     rep.add_model("terms", tres, "byte-layout templates")
@@ -327,6 +328,8 @@ def c12(pid, tier, seed, selftest=False):
     rep.extra["configurations_run"] = len(sel)
     rep.extra["exit0"] = sum(1 for e in evs if e["exit"] == 0)
     rep.exhaustive = thorough
+    # the same clauses with the password typed on a terminal instead of taken from the environment
+    tty_extension(rep, pid, tpl, seed, thorough, ["C12_", "C16_", "C09_"])
     return rep.finish()
 
 
@@ -358,6 +361,8 @@ def c13(pid, tier, seed, selftest=False):
     rep.sample(evs[-1])
     rep.extra["configurations_run"] = len(sel)
     rep.extra["causes"] = sorted(set(c["cause"] for c in sel))
+    # the user backing out at a password prompt (Ctrl-C) or a wrong old password: nothing created or clobbered
+    tty_extension(rep, pid, tpl, seed, thorough, ["C13_"], only_failures=True)
     return rep.finish()
 
 
@@ -778,3 +783,104 @@ def validate_events_argv(rep, pid, evs):
             raise ToolError("trace tooling mismatch " + pred)
         e = evs[ln - 1]
         rep.violation("%s argv=%s" % (pred, json.dumps(e["argv"])), {"engine": "argv", "observed": e})
+
+
+# --------------------------------------------------------------------------
+# interactive password entry on a terminal (Prompt.tla): extends C12 / C13 / C16
+# --------------------------------------------------------------------------
+
+import ptyrun
+
+TTY_WORDS = {"good": "the-right-pw", "x": "wrong x", "y": "wröng-y"}
+
+
+def run_tty_scenario(w, idx, sc):
+    cmd, script, exp = sc["cmd"], sc["script"], sc["exp"]
+    lines = [TTY_WORDS[x] for x in script]
+    keys = cli.make_keys(w.pid, w.tpl, w.seed, [("ttyalice", TTY_WORDS["good"].encode()), ("ttybob", TTY_WORDS["good"].encode())])
+    with cli.Sandbox(w.pid, "tty") as sb:
+        prior = b"PRIOR CONTENT\n" * 5000
+        out_path = sb.path("out.bin")
+        with open(out_path, "wb") as f:
+            f.write(prior)
+        sb.write("kr.txt", cli.keyring_text([("alice", keys["ttyalice"], True), ("bob", keys["ttybob"], True)]))
+        if cmd == "pass_encrypt":
+            sb.write("in.bin", w.P2)
+            args = ["password", "encrypt", sb.path("in.bin"), "-o", out_path]
+        elif cmd == "decrypt":
+            ops = [{"op": "specfile", "api": "key", "chunks": [65536, 1000], "pseed": 9, "s_priv_hex": keys["ttyalice"]["sk_hex"],
+                    "r_pub_hex": keys["ttybob"]["pk_hex"], "tag": "tty", "out": sb.path("in.ktl")}]
+            cli.driver_ops(w.pid, w.tpl, ops, w.seed, "tty")
+            args = ["decrypt", sb.path("in.ktl"), "-t", "bob", "-o", out_path, "-k", sb.path("kr.txt")]
+        elif cmd == "encrypt":
+            sb.write("in.bin", w.P2)
+            args = ["encrypt", sb.path("in.bin"), "-t", "bob", "-f", "alice", "-o", out_path, "-k", sb.path("kr.txt")]
+        else:
+            args = ["key", "change-pass", keys["ttyalice"]["locked"]]
+        # lines typed; then Ctrl-C if the contract says the script ends in an interrupt
+        rc, transcript, answered = ptyrun.run_tty(args, lines, timeout=90, interrupt=(exp["res"] == "interrupted"))
+        got = sb.read("out.bin")
+        pw_ok = True
+        if got == prior:
+            out = "untouched"
+        elif got is None:
+            out = "absent"
+        elif cmd == "decrypt":
+            out = "full" if got == w.P2 else "other"
+        elif cmd in ("pass_encrypt", "encrypt"):
+            sb.write("produced.ktl", got)
+            op = {"op": "golden", "id": "x", "api": "pass" if cmd == "pass_encrypt" else "key", "path": sb.path("produced.ktl"), "plain_hex": w.P2.hex()}
+            if cmd == "encrypt":
+                op.update({"r_priv_hex": keys["ttybob"]["sk_hex"], "s_pub_hex": keys["ttyalice"]["pk_hex"]})
+            else:
+                op["password_hex"] = TTY_WORDS.get(exp["pw"], "no such password").encode().hex()
+            g = cli.driver_ops(w.pid, w.tpl, [op], w.seed, "ttyprod")[0]
+            out = "full" if (g["dec"] == "ok" and g["plain_ok"] and g["sender_ok"] and g["spec_ok"]) else "other"
+        else:
+            out = "other"
+        if cmd == "change_pass":
+            out = "untouched"
+            if exp["res"] == "ok":
+                m = re.search(rb"PrivateKey = (\S+)", transcript)
+                pw_ok = False
+                out = "other"
+                if m:
+                    u = cli.driver_ops(w.pid, w.tpl, [{"op": "unlock", "locked": m.group(1).decode(),
+                                                       "password_hex": TTY_WORDS[exp["pw"]].encode().hex()}], w.seed, "ttyu")[0]
+                    pw_ok = bool(u.get("ok")) and u.get("sk_hex") == keys["ttyalice"]["sk_hex"]
+                    out = "full" if pw_ok else "other"
+        text = transcript.decode("utf-8", "replace")
+        return {"ev": "tty", "id": "tty%d" % idx, "cmd": cmd, "script": script, "exp": exp, "rc": rc, "answered": answered,
+                "timed_out": rc == -999, "out": out, "pw_ok": pw_ok, "errline": "Error:" in text,
+                "transcript_tail": text[-200:]}
+
+
+def tty_extension(rep, pid, tpl, seed, thorough, prefixes, only_failures=False):
+    res = run_tlc(pid, "prompt-mc", "Prompt", "SPECIFICATION Spec\nCONSTANT MaxLines = %d\nINVARIANT MatchesContract\nINVARIANT Emit\nCHECK_DEADLOCK FALSE\n"
+                  % (5 if thorough else 4), workers=1, timeout=300)
+    rep.add_model("prompt-mc", res, "interactive password paths (ask / confirm loop / unlock loop) against the declarative outcome; emits typed scripts")
+    if res.violated:
+        raise ToolError("Prompt model violates %s (model bug)" % res.violated)
+    scs = res.replays
+    try:
+        import pty
+        pid_, fd_ = pty.fork()
+        if pid_ == 0:
+            os._exit(0)
+        os.waitpid(pid_, 0)
+        os.close(fd_)
+    except OSError as e:
+        rep.notes.append("no pseudo-terminal available (%s): the interactive paths were model-checked but not replayed" % e)
+        return
+    if only_failures:
+        scs = [s for s in scs if s["exp"]["res"] != "ok"]
+    if not thorough:
+        scs = [s for i, s in enumerate(scs) if len(s["script"]) <= 2 or i % 6 == 0]
+    w = World(pid, tpl, seed)
+    with cf.ThreadPoolExecutor(max_workers=8) as ex:
+        evs = list(ex.map(lambda isc: run_tty_scenario(w, isc[0], isc[1]), list(enumerate(scs))))
+    for s in scs:
+        rep.case("tty:" + json.dumps(s, sort_keys=True), len(s["script"]) >= 1)
+    rep.sample(evs[len(evs) // 2])
+    validate_events(rep, pid, "tty", evs, prefixes)
+    rep.extra["tty_scenarios"] = len(evs)
